@@ -28,9 +28,12 @@ def forward_4tuple(rep, fnd, table, records, pid):
         wave = (taps["col"][0], taps["col"][1], taps["row"][0], taps["row"][1])
         ref_rec = dict(r)
         exp_low, exp_high = compose_fwd2(table, ref_rec, taps, "ref")
-        obs = extract_fwd2(mode, H, W, J, wave)
+        with_graph = (n_ok % 2 == 1)        # every other configuration with an input that requires grad (graph being recorded)
+        obs = extract_fwd2(mode, H, W, J, wave, grad=with_graph)
+        if with_graph:
+            cfg["input_requires_grad"] = True
         rep.validated()
-        rep.nontriv(("fwd4", mode, H, W, Lc, Lr, J))
+        rep.nontriv(("fwd4", mode, H, W, Lc, Lr, J, with_graph))
         if isinstance(obs, dwtlib.Raised):
             lh, lw = [H] + r["ref_lensH"], [W] + r["ref_lensW"]
             if mode == "reflect" and (any(n < max(Lc, Lr) for n in (lh[:J] + lw[:J]))):
@@ -94,9 +97,12 @@ def inverse_4tuple(rep, fnd, table, records, pid):
         exp = compose_inv2(table, r, g, none, "shape")
         if exp is None:
             continue
-        obs = extract_inv2(r, wave, none, "f64")
+        with_graph = (n_ok % 2 == 1)
+        obs = extract_inv2(r, wave, none, "f64", grad=with_graph)
+        if with_graph:
+            cfg["coefficients_require_grad"] = True
         rep.validated()
-        rep.nontriv(("inv4", mode, H, W, Lc, Lr, J, tuple(sorted(none))))
+        rep.nontriv(("inv4", mode, H, W, Lc, Lr, J, tuple(sorted(none)), with_graph))
         if isinstance(obs, dwtlib.Raised):
             f = fnd.match(pid, "DWTInverse(4-tuple)", cfg, "raises")
             if f:
